@@ -1,1 +1,280 @@
-//! C10: independent RFC 7578 encoder (reference model; to be written)
+//! Independent RFC 7578 (`multipart/form-data`) encoder and a strict decoder of the same grammar.
+//!
+//! The encoder is the *oracle input side* of C10: a form (ordered list of text fields and files) is turned into
+//! a body the way browsers and RFC 7578 section 4 describe it.  The strict decoder exists to bind the encoder to
+//! the grammar (encode → decode is the identity, see the tests and the engine's start-up self-check) and to decide
+//! the *precondition* of the property: a form is inside the domain only if the delimiter (CRLF `--` boundary)
+//! occurs exactly where the encoder put it (RFC 2046 section 5.1.1: "the boundary delimiter MUST NOT appear inside
+//! any of the encapsulated parts").
+//!
+//! Nothing here shares code with `ohkami_lib::serde_multipart`.
+
+#[derive(Clone, Debug, PartialEq, Eq, Hash)]
+pub enum PartBody {
+    /// a text field; `value` is UTF-8
+    Text { value: String },
+    /// a file; `ctype == None` ⇒ no `Content-Type` line is written for the part
+    File { filename: String, ctype: Option<String>, content: Vec<u8> },
+}
+
+#[derive(Clone, Debug, PartialEq, Eq, Hash)]
+pub struct Part {
+    pub name: String,
+    pub body: PartBody,
+}
+
+impl Part {
+    pub fn text(name: &str, value: &str) -> Self { Part { name: name.into(), body: PartBody::Text { value: value.into() } } }
+    pub fn file(name: &str, filename: &str, ctype: Option<&str>, content: &[u8]) -> Self {
+        Part { name: name.into(), body: PartBody::File { filename: filename.into(), ctype: ctype.map(Into::into), content: content.to_vec() } }
+    }
+    pub fn is_file(&self) -> bool { matches!(self.body, PartBody::File { .. }) }
+    /// the browser encoding of "no file chosen": `filename=""` and no content
+    pub fn is_empty_file_input(&self) -> bool {
+        matches!(&self.body, PartBody::File { filename, content, .. } if filename.is_empty() && content.is_empty())
+    }
+    pub fn content(&self) -> &[u8] {
+        match &self.body { PartBody::Text { value } => value.as_bytes(), PartBody::File { content, .. } => content }
+    }
+}
+
+/// Where the optional extra (to be ignored, RFC 7578 section 4.8) part header goes.
+#[derive(Clone, Copy, Debug, PartialEq, Eq, Hash)]
+pub enum Extra { None, First, Last }
+
+/// Choices a conforming encoder has.
+#[derive(Clone, Copy, Debug, PartialEq, Eq, Hash)]
+pub struct EncOpts {
+    /// write `Content-Type` before `Content-Disposition`
+    pub ct_first: bool,
+    /// add `Content-Transfer-Encoding: binary|8bit` (deprecated but harmless; receivers must ignore unknown part headers)
+    pub extra: Extra,
+    /// `--B--` followed by CRLF (browsers) or not (the minimum of RFC 2046)
+    pub final_crlf: bool,
+    /// text parts carry `Content-Type: text/plain; charset=UTF-8` (RFC 7578 section 4.4/4.5 allow it)
+    pub text_ct: bool,
+}
+
+impl EncOpts {
+    pub const DEFAULT: EncOpts = EncOpts { ct_first: false, extra: Extra::None, final_crlf: true, text_ct: false };
+    /// every combination, default first
+    pub fn all() -> Vec<EncOpts> {
+        let mut v = Vec::new();
+        for extra in [Extra::None, Extra::Last, Extra::First] {
+            for text_ct in [false, true] {
+                for ct_first in [false, true] {
+                    for final_crlf in [true, false] {
+                        v.push(EncOpts { ct_first, extra, final_crlf, text_ct });
+                    }
+                }
+            }
+        }
+        v
+    }
+    pub fn tag(&self) -> String {
+        format!("{}{}{}{}", if self.ct_first { "T" } else { "D" },
+            match self.extra { Extra::None => "-", Extra::First => "x", Extra::Last => "X" },
+            if self.final_crlf { "n" } else { "_" }, if self.text_ct { "c" } else { "-" })
+    }
+    pub fn from_tag(t: &str) -> Option<EncOpts> {
+        let b = t.as_bytes();
+        if b.len() != 4 { return None }
+        Some(EncOpts {
+            ct_first: match b[0] { b'T' => true, b'D' => false, _ => return None },
+            extra: match b[1] { b'-' => Extra::None, b'x' => Extra::First, b'X' => Extra::Last, _ => return None },
+            final_crlf: match b[2] { b'n' => true, b'_' => false, _ => return None },
+            text_ct: match b[3] { b'c' => true, b'-' => false, _ => return None },
+        })
+    }
+}
+
+/// The bytes of one part between two delimiter lines: header lines, empty line, content (no trailing CRLF).
+pub fn encode_part(p: &Part, o: EncOpts) -> Vec<u8> {
+    let mut cd = Vec::new();
+    cd.extend_from_slice(b"Content-Disposition: form-data; name=\"");
+    cd.extend_from_slice(p.name.as_bytes());
+    cd.push(b'"');
+    let (ct, content, cte): (Option<String>, &[u8], &str) = match &p.body {
+        PartBody::Text { value } => (o.text_ct.then(|| "text/plain; charset=UTF-8".to_string()), value.as_bytes(), "8bit"),
+        PartBody::File { filename, ctype, content } => {
+            cd.extend_from_slice(b"; filename=\"");
+            cd.extend_from_slice(filename.as_bytes());
+            cd.push(b'"');
+            (ctype.clone(), content, "binary")
+        }
+    };
+    let mut lines: Vec<Vec<u8>> = Vec::new();
+    let ct_line = ct.map(|t| format!("Content-Type: {t}").into_bytes());
+    if o.extra == Extra::First { lines.push(format!("Content-Transfer-Encoding: {cte}").into_bytes()) }
+    if o.ct_first { if let Some(l) = &ct_line { lines.push(l.clone()) } }
+    lines.push(cd);
+    if !o.ct_first { if let Some(l) = &ct_line { lines.push(l.clone()) } }
+    if o.extra == Extra::Last { lines.push(format!("Content-Transfer-Encoding: {cte}").into_bytes()) }
+    let mut out = Vec::new();
+    for l in lines { out.extend_from_slice(&l); out.extend_from_slice(b"\r\n"); }
+    out.extend_from_slice(b"\r\n");
+    out.extend_from_slice(content);
+    out
+}
+
+/// Assemble a body from already encoded parts.
+pub fn assemble(parts: &[&[u8]], boundary: &str, final_crlf: bool, out: &mut Vec<u8>) {
+    out.clear();
+    if parts.is_empty() {
+        // a form without any entry: browsers send the close delimiter alone
+        out.extend_from_slice(b"--"); out.extend_from_slice(boundary.as_bytes()); out.extend_from_slice(b"--");
+        if final_crlf { out.extend_from_slice(b"\r\n") }
+        return
+    }
+    for (i, p) in parts.iter().enumerate() {
+        if i > 0 { out.extend_from_slice(b"\r\n") }
+        out.extend_from_slice(b"--"); out.extend_from_slice(boundary.as_bytes()); out.extend_from_slice(b"\r\n");
+        out.extend_from_slice(p);
+    }
+    out.extend_from_slice(b"\r\n--"); out.extend_from_slice(boundary.as_bytes()); out.extend_from_slice(b"--");
+    if final_crlf { out.extend_from_slice(b"\r\n") }
+}
+
+pub fn encode(form: &[Part], boundary: &str, o: EncOpts) -> Vec<u8> {
+    let enc: Vec<Vec<u8>> = form.iter().map(|p| encode_part(p, o)).collect();
+    let refs: Vec<&[u8]> = enc.iter().map(|v| v.as_slice()).collect();
+    let mut out = Vec::new();
+    assemble(&refs, boundary, o.final_crlf, &mut out);
+    out
+}
+
+fn find(hay: &[u8], needle: &[u8], from: usize) -> Option<usize> {
+    if needle.is_empty() || hay.len() < needle.len() { return None }
+    (from..=hay.len() - needle.len()).find(|&i| &hay[i..i + needle.len()] == needle)
+}
+
+/// Number of places where a receiver that follows RFC 2046 sees a delimiter: the dash-boundary at offset 0 plus
+/// every occurrence of CRLF `--` boundary.
+pub fn delimiter_occurrences(body: &[u8], boundary: &str) -> usize {
+    let dash = [b"--", boundary.as_bytes()].concat();
+    let delim = [b"\r\n--", boundary.as_bytes()].concat();
+    let mut n = if body.starts_with(&dash) { 1 } else { 0 };
+    let mut at = 0;
+    while let Some(i) = find(body, &delim, at) { n += 1; at = i + 1; }
+    n
+}
+
+/// Precondition of C10 ("contents not containing the delimiter"): the delimiter occurs exactly `parts + 1` times
+/// (1 time for the empty form).
+pub fn in_domain(body: &[u8], boundary: &str, nparts: usize) -> bool {
+    delimiter_occurrences(body, boundary) == if nparts == 0 { 1 } else { nparts + 1 }
+}
+
+/// A part content is *locally* safe for `boundary` if, placed after the empty line that ends the part headers and
+/// before the next delimiter, it creates no additional delimiter.  (Equivalent to `in_domain` for bodies whose
+/// headers do not contain the boundary, which is true for every alphabet used here; the engine asserts the
+/// equivalence at start-up.)
+pub fn content_safe(content: &[u8], boundary: &str) -> bool {
+    let mut probe = b"\r\n".to_vec();
+    probe.extend_from_slice(content);
+    probe.extend_from_slice(b"\r\n--");
+    probe.extend_from_slice(boundary.as_bytes());
+    delimiter_occurrences(&probe, boundary) == 1
+}
+
+/// Strict decoder of what `encode` can produce (RFC 2046 multipart syntax without preamble/epilogue, RFC 7578
+/// part headers).  Returns the parts; text/file is decided by the presence of `filename`.
+pub fn decode_strict(body: &[u8], boundary: &str) -> Result<Vec<Part>, String> {
+    let dash = [b"--", boundary.as_bytes()].concat();
+    let delim = [b"\r\n--", boundary.as_bytes()].concat();
+    if !body.starts_with(&dash) { return Err("body does not start with the dash-boundary".into()) }
+    let mut at = dash.len();
+    let mut parts = Vec::new();
+    loop {
+        let rest = &body[at..];
+        if rest.starts_with(b"--") {
+            let tail = &rest[2..];
+            return if tail.is_empty() || tail == b"\r\n" { Ok(parts) } else { Err("bytes after the close delimiter".into()) }
+        }
+        if !rest.starts_with(b"\r\n") { return Err("delimiter not followed by CRLF or `--`".into()) }
+        at += 2;
+        // header lines up to the empty line
+        let (mut name, mut filename, mut ctype) = (None::<String>, None::<String>, None::<String>);
+        loop {
+            let eol = find(body, b"\r\n", at).ok_or("unterminated part header")?;
+            let line = &body[at..eol];
+            at = eol + 2;
+            if line.is_empty() { break }
+            let line = std::str::from_utf8(line).map_err(|_| "part header is not UTF-8")?;
+            let (h, v) = line.split_once(':').ok_or("part header without colon")?;
+            let v = v.trim_start_matches(' ');
+            if h.eq_ignore_ascii_case("content-disposition") {
+                let mut it = v.split("; ");
+                if it.next() != Some("form-data") { return Err("disposition type is not form-data".into()) }
+                for param in it {
+                    let (k, q) = param.split_once('=').ok_or("disposition parameter without `=`")?;
+                    let q = q.strip_prefix('"').and_then(|q| q.strip_suffix('"')).ok_or("disposition parameter not quoted")?;
+                    match k { "name" => name = Some(q.into()), "filename" => filename = Some(q.into()), _ => return Err("unknown disposition parameter".into()) }
+                }
+            } else if h.eq_ignore_ascii_case("content-type") {
+                ctype = Some(v.to_string());
+            } // any other header is ignored (RFC 7578 section 4.8)
+        }
+        // The search starts at the CRLF of the empty line: RFC 2046 lets that CRLF belong to a delimiter
+        // (`body-part := headers [CRLF *OCTET]`), in which case the part has no content at all.
+        let end = find(body, &delim, at - 2).ok_or("part not terminated by a delimiter")?;
+        let content = if end < at { &body[at..at] } else { &body[at..end] };
+        let name = name.ok_or("part without a name")?;
+        parts.push(match filename {
+            Some(filename) => Part { name, body: PartBody::File { filename, ctype, content: content.to_vec() } },
+            None => Part { name, body: PartBody::Text { value: String::from_utf8(content.to_vec()).map_err(|_| "text field is not UTF-8")? } },
+        });
+        at = end + delim.len();
+    }
+}
+
+#[cfg(test)]
+mod t {
+    use super::*;
+
+    #[test] fn rfc7578_shape() {
+        let form = vec![Part::text("user", "Joe"), Part::file("f", "a.txt", Some("text/plain"), b"hello\r\n")];
+        let body = encode(&form, "AaB03x", EncOpts::DEFAULT);
+        assert_eq!(String::from_utf8(body.clone()).unwrap(),
+            "--AaB03x\r\nContent-Disposition: form-data; name=\"user\"\r\n\r\nJoe\r\n--AaB03x\r\n\
+             Content-Disposition: form-data; name=\"f\"; filename=\"a.txt\"\r\nContent-Type: text/plain\r\n\r\nhello\r\n\r\n--AaB03x--\r\n");
+        assert!(in_domain(&body, "AaB03x", 2));
+        assert_eq!(decode_strict(&body, "AaB03x").unwrap(), form);
+    }
+
+    #[test] fn options_round_trip() {
+        let form = vec![
+            Part::file("a", "", None, b""), Part::file("a", "\u{e9}.png", Some("image/png"), b"\0\xff"),
+            Part::text("b", "a\r\nb"), Part::file("b", "f.txt", None, b"x--B"), Part::file("b", "f.txt", None, b"\r"),
+        ];
+        for o in EncOpts::all() {
+            assert_eq!(EncOpts::from_tag(&o.tag()), Some(o));
+            for b in ["B", "----WebKitFormBoundaryX", "a-b"] {
+                let body = encode(&form, b, o);
+                assert!(in_domain(&body, b, form.len()), "{b} {o:?}");
+                let got = decode_strict(&body, b).unwrap();
+                // a text part's optional content type is not part of the form
+                assert_eq!(got.len(), form.len());
+                for (g, f) in got.iter().zip(&form) {
+                    assert_eq!(g.name, f.name);
+                    assert_eq!(g.content(), f.content());
+                    assert_eq!(g.is_file(), f.is_file());
+                }
+            }
+        }
+        assert_eq!(decode_strict(b"--B--\r\n", "B").unwrap(), vec![]);
+        assert_eq!(decode_strict(b"--B--", "B").unwrap(), vec![]);
+    }
+
+    #[test] fn domain() {
+        // content starting with the dash-boundary forms a delimiter together with the CRLF of the empty line
+        assert!(!content_safe(b"--B", "B"));
+        assert!(content_safe(b"x--B", "B"));
+        assert!(!content_safe(b"x\r\n--B", "B"));
+        assert!(content_safe(b"\r\n", "B"));
+        assert!(content_safe(b"--", "B"));
+        assert!(content_safe(b"--B", "a-b"));
+        let body = encode(&[Part::file("a", "f", None, b"--B")], "B", EncOpts::DEFAULT);
+        assert!(!in_domain(&body, "B", 1));
+    }
+}
